@@ -81,8 +81,11 @@ def _run_one(job):
     src, file_re, name_re, flags, out = job[:5]
     env = dict(os.environ)
     env.pop('SFX_LAMBDA_VARTYPE_RE', None)
+    env.pop('SFX_TOUCHES_RE', None)
     if len(job) > 5 and job[5]:
         env['SFX_LAMBDA_VARTYPE_RE'] = job[5]
+    if len(job) > 6 and job[6]:
+        env['SFX_TOUCHES_RE'] = job[6]
     t0 = time.time()
     p = subprocess.run([SFX, out, file_re, name_re, src, '--'] + flags, stdout=subprocess.PIPE,
                        stderr=subprocess.STDOUT, text=True, env=env)
@@ -126,8 +129,11 @@ class Unit:
         return None
 
 
+_MEMO = {}
+
+
 def extract(jobs, workers=16):
-    """jobs: list of (src_path, file_regex, name_regex[, flags[, lambda_vartype_regex]]).  Returns list of Unit.
+    """jobs: list of (src_path, file_regex, name_regex[, flags[, lambda_vartype_regex[, touches_regex]]]).  Returns list of Unit.
     Facts are written under build/run/<pid>/ and removed after loading."""
     ensure_sfx()
     d = os.path.join(RUN_DIR, str(os.getpid()))
@@ -143,12 +149,34 @@ def extract(jobs, workers=16):
         if _OVERLAY is not None:
             src, extra = _OVERLAY.map(src)
             fl = extra + fl
-        full.append((src, fre, nre, fl, os.path.join(d, 'u%d.json' % n), j[4] if len(j) > 4 else None))
+        full.append((src, fre, nre, fl, os.path.join(d, 'u%d.json' % n), j[4] if len(j) > 4 else None, j[5] if len(j) > 5 else None))
     units = []
+    # per-process memo: a unit is re-extracted under an overlay only if the overlay could affect it
+    # (it edits a header, or this very .cpp)
+    keys = []
+    for job in full:
+        ov = None
+        if _OVERLAY is not None:
+            if any(not r.endswith('.cpp') for r in _OVERLAY.edits) or job[0].startswith(_OVERLAY.dir):
+                ov = tuple(sorted((r, hashlib.sha1(c.encode()).hexdigest()) for r, c in _OVERLAY.edits.items()))
+        keys.append((job[0] if not (_OVERLAY and job[0].startswith(_OVERLAY.dir)) else 'ov', job[1], job[2],
+                     tuple(f for f in job[3] if not (_OVERLAY and _OVERLAY.dir in f)), job[5], job[6], ov))
+    todo = [(k, job) for k, job in zip(keys, full) if k not in _MEMO]
     try:
         with ThreadPoolExecutor(max_workers=workers) as ex:
-            results = list(ex.map(_run_one, full))
-        for (job, rc, out, dt) in results:
+            results = list(ex.map(_run_one, [j for _, j in todo]))
+        fresh = {}
+        for (k, _), r in zip(todo, results):
+            fresh[k] = r
+        ordered = []
+        for k, job in zip(keys, full):
+            if k in _MEMO:
+                units.append(_MEMO[k])
+            else:
+                ordered.append((k, fresh[k]))
+                units.append(None)
+        pos = [i for i, u_ in enumerate(units) if u_ is None]
+        for i, (k, (job, rc, out, dt)) in zip(pos, ordered):
             if rc != 0 or not os.path.exists(job[4]):
                 raise Broken('sfx failed on %s (rc=%s): %s' % (job[0], rc, out[-2000:]))
             with open(job[4]) as fh:
@@ -157,7 +185,8 @@ def extract(jobs, workers=16):
                 raise Broken('clang reported errors parsing %s: %s' % (job[0], out[-2000:]))
             u = Unit(job[0], data)
             u.extract_s = dt
-            units.append(u)
+            units[i] = u
+            _MEMO[k] = u
     finally:
         shutil.rmtree(d, ignore_errors=True)
     return units
